@@ -6,6 +6,7 @@ requests answer `bad-op` — never a default value.
 import PyAbel.Model.Proto
 import PyAbel.Model.Symmetry
 import PyAbel.Model.Center
+import PyAbel.Model.Pipeline
 open PyAbel PyAbel.Proto
 
 def axOfNat : Nat → Option SymAxis
@@ -43,6 +44,16 @@ def handle (toks : List String) : String :=
       if !admissible ax m then "raise" else
       let q := getQuadrants (Img.ofArray r c 0.0 xs) ax m
       s!"ok {q.q0.rows} {q.q0.cols} " ++ showFloats (q.q0.toList ++ q.q1.toList ++ q.q2.toList ++ q.q3.toList)
+    | _, _, _, _, _, _, _, _ => "bad-op"
+  -- pipe rows cols ax u0..u3 <pixels…>  →  Transform's quadrant pipeline with the stub method
+  | "pipe" :: r :: c :: ax :: u0 :: u1 :: u2 :: u3 :: rest =>
+    match r.toNat?, c.toNat?, ax.toNat? >>= axOfNat, parseBool u0, parseBool u1, parseBool u2, parseBool u3,
+          parseFloats rest with
+    | some r, some c, some ax, some u0, some u1, some u2, some u3, some xs =>
+      if xs.size ≠ r * c then "bad-op" else
+      let m : Mask := ⟨u0, u1, u2, u3⟩
+      if !admissible ax m then "raise" else
+      showImg (transformQuadrants stubT (Img.ofArray r c 0.0 xs) ax m)
     | _, _, _, _, _, _, _, _ => "bad-op"
   -- setcenter crop rows cols o0 o1 <pixels…>   (whole-pixel path of set_center)
   | "setcenter" :: crop :: r :: c :: o0 :: o1 :: rest =>
